@@ -29,3 +29,9 @@ Definition table_ok (cur h : N) (t : table) : Prop :=
   forall i v s, nth_error t i = Some (Some (v, s)) -> signer s = i /\ (v = cur -> over s = h).
 
 Definition cur_count (cur : N) (t : table) : nat := length (picked true cur t).
+
+(* any selection of rows (a validator may hold any subset of the commits): [sel] says which rows are taken *)
+Definition picked_sel (cur : N) (sel : list bool) (t : table) : list sg :=
+  flat_map (fun be => match be with
+                      | (true, Some (v, s)) => if v =? cur then [s] else []
+                      | _ => [] end) (combine sel t).
